@@ -9,6 +9,8 @@ from props import c12
 
 ID = "C06"
 LEAN_TARGETS = ["PV.Props.C06"]
+# further property theorems: propagation of the longitude/obliquity bounds to RA, declination, zenith, altitude, cos_zen
+EXTRA_PROPS = ['PV.Props.C06Bound']
 # T-C tie (DESIGN 2.3): kernels traced from the current source are proved equal to the model over the reals
 EQUIV = {'PV.Equiv.Astro': ['gmst_eq', 'sun_ecliptic_longitude_eq', 'sun_ra_dec_eq', 'cos_zen_eq', 'sun_zenith_angle_eq', 'get_alt_az_eq', 'sun_earth_distance_correction_eq']}
 RULE = ("instants 1950-2050 uniform plus solstices/equinoxes/year boundaries x lon in [-360,360] x lat in [-90,90] incl. poles, "
@@ -23,9 +25,14 @@ TRUSTED = ["model PV.Model.Astro (sun functions)", "spec PV.Spec.Almanac"]
 LEVEL_TEXT = ("Theorems over the reals: zenith = arccos(cos_zen) = 90 deg - altitude (same expression), cos_zen = +1/-1 at the "
               "sub-solar point / antipode, the half-angle RA form equals atan2(cos eps sin lam, cos lam), alt/az are the "
               "textbook hour-angle formulas (azimuth clockwise from north), |cos_zen| <= 1, the coded ecliptic longitude / "
-              "obliquity are within explicit bounds of the Almanac series for 1950-2050. The model is tied to astronomy.py by "
-              "comparing ten sun quantities per sample at 1e-11. The 0.03 deg / 0.0015 AU agreement is measured against an "
-              "independent implementation of the Almanac formulas.")
+              "obliquity are within explicit bounds of the Almanac series for 1950-2050, and these bounds propagate (PV.Props.C06Bound): "
+              "declination within 0.0065 deg, right ascension within 0.01335 deg (mod 360), zenith angle and altitude within "
+              "0.01311 deg, cos_zen within 0.00023 of the Almanac values for every place on earth (IAU-82 sidereal time; guard: "
+              "the one real instant per year with cos(lambda) = -1, where the half-angle form is 2*atan2(0,0)); the distance "
+              "factor within 0.0009 AU. Only the cos(altitude)-weighted azimuth bound stays measured (near the zenith a "
+              "direction error g allows pi*g of weighted azimuth, 0.041 deg worst case). The model is tied to astronomy.py by the "
+              "T-C tie (all sun functions traced from the source equal the model for all real inputs) and by comparing ten sun "
+              "quantities per sample at 1e-11; float agreement is measured against an independent Almanac implementation.")
 LEVEL_NOTE = ("Trusted: Lean kernel + Mathlib reals; hand-written model and correspondence harness; the Almanac transcription; "
               "binary64 rounding not modelled.")
 TECHNIQUE = "Lean 4 proof of trigonometric identities and series bounds over R + differential correspondence + independent-ephemeris oracle"
